@@ -169,10 +169,15 @@ def _block_bounds(lo, hi, v, tids, varying=()):
     return len(coef) == 1 and coef[0].denominator == 1 and coef[0] != 0 and not others
 
 
+ATOMS = {}
+
+
 def _topoly(e, frozen_out):
-    """Integer expression as an exact polynomial; None when it uses anything but names, integer literals, + - *."""
+    """Integer expression as an exact polynomial over names; a loop-invariant sub-expression that is not + - * (a call,
+    a floor division, a subscript) becomes one opaque symbol keyed by its structure (registered in ATOMS).
+    None when a name that varies in the loop occurs inside such a sub-expression."""
     from .poly import Poly
-    if isinstance(e, ast.Constant) and isinstance(e.value, int) and not isinstance(e.value, bool):
+    if isinstance(e, ast.Constant) and type(e.value) is int:
         return Poly.const(e.value)
     if isinstance(e, ast.Name):
         if e.id in frozen_out:
@@ -185,6 +190,10 @@ def _topoly(e, frozen_out):
         return a + b if isinstance(e.op, ast.Add) else (a - b if isinstance(e.op, ast.Sub) else a * b)
     if isinstance(e, ast.Call) and dotted(e.func) == 'len' and len(e.args) == 1 and isinstance(e.args[0], ast.Name) and e.args[0].id not in frozen_out:
         return Poly.sym(f'len({e.args[0].id})')
+    if isinstance(e, (ast.Call, ast.BinOp, ast.Attribute, ast.Subscript)) and not (names_in(e) & set(frozen_out)):
+        k = '<' + unparse(e) + '>'
+        ATOMS[k] = e
+        return Poly.sym(k)
     return None
 
 
@@ -312,7 +321,7 @@ def flat_coverage(fn, loop):
         if ab['lo'].subst(v, Poly.const(0)) != Poly.const(0) or len(step.syms()) != 1 or step != Poly.sym(next(iter(step.syms()))):
             return 'UNKNOWN', f'blocks start at {ab["lo"]!r}', X
         c = next(iter(step.syms()))
-        cdef = single_def(c)
+        cdef = ATOMS[c] if c in ATOMS else single_def(c)
         n = _topoly(count, set())
         if cdef is None or n is None:
             return 'UNKNOWN', f'block size {c} has no single definition', X
